@@ -140,6 +140,7 @@ fn repeated_entries(ctx: &mut Ctx, rep: &mut Report) {
         ("map: the same pair twice", format!(r#"(seq (seq (ap ("k" "yes") %m) (seq (ap ("k" "yes") %m) (seq (ap ("k" "other") %m) (ap ("j" "yes") %m)))) (seq (canon "{p}" %m #%cm) {}))"#, shows("#%cm #%cm.$.k"))),
         ("stream: the same value twice", format!(r#"(seq (seq (ap "yes" $s) (seq (ap "yes" $s) (ap "other" $s))) (seq (canon "{p}" $s #cs) {}))"#, shows("#cs"))),
         ("map: results of identical calls under one key", format!(r#"(seq (seq (call "{q}" ("svc" "str_7") [] x) (seq (call "{q}" ("svc" "str_7") [] y) (seq (ap ("k" x) %m) (seq (ap ("k" y) %m) (ap ("k" x) %m))))) (seq (canon "{q}" %m #%cm) {}))"#, shows("#%cm.$.k #%cm"))),
+        ("map: two keys that render to the same JSON key", format!(r#"(seq (seq (ap ("1" "a") %m) (seq (ap (1 "b") %m) (seq (ap ("1" "c") %m) (ap (2 "d") %m)))) (seq (canon "{p}" %m #%cm) {}))"#, shows("#%cm #%cm.$.[1]"))),
         ("map into a scalar: the same pair twice", format!(r#"(seq (seq (ap ("k" 1) %m) (seq (ap ("k" 1) %m) (ap ("k" 2) %m))) (seq (canon "{p}" %m cm) {}))"#, shows("cm"))),
     ];
     let mut corr = Corr::new();
